@@ -310,7 +310,9 @@ fn method_of(i: usize) -> RecyclingMethod {
         0 => RecyclingMethod::Fast,
         1 => RecyclingMethod::Verified,
         2 => RecyclingMethod::Clean,
-        _ => RecyclingMethod::Custom("SELECT custom_check()".into()),
+        3 => RecyclingMethod::Custom("SELECT custom_check()".into()),
+        // a custom statement that is blank: still "the custom SQL", still a round trip
+        _ => RecyclingMethod::Custom(" ".into()),
     }
 }
 
@@ -367,7 +369,8 @@ async fn run_inner(sc: &C16Scenario) -> u64 {
         0 => None,
         1 => Some(String::new()),
         2 => Some("CLOSE ALL; SET SESSION AUTHORIZATION DEFAULT; RESET ALL; UNLISTEN *; SELECT pg_advisory_unlock_all(); DISCARD TEMP; DISCARD SEQUENCES;".to_string()),
-        _ => Some("SELECT custom_check()".to_string()),
+        3 => Some("SELECT custom_check()".to_string()),
+        _ => Some(" ".to_string()),
     };
     let mut pg = PgConfig::new();
     pg.user("u").dbname("d").host("scripted");
@@ -739,7 +742,7 @@ async fn run_inner(sc: &C16Scenario) -> u64 {
 pub fn scenarios(tier: Tier) -> Vec<Scenario> {
     let thorough = tier == Tier::Thorough;
     let mut v = Vec::new();
-    for method in 0..4usize {
+    for method in 0..5usize {
         for ms in [1usize, 2] {
             let depth = match (thorough, ms) {
                 (false, 1) => 5,
@@ -749,7 +752,7 @@ pub fn scenarios(tier: Tier) -> Vec<Scenario> {
             };
             let sc = C16Scenario { method, ms, depth };
             v.push(Scenario::new(
-                &format!("histories/{:?}/ms{}", method_of(method), ms).replace("(\"SELECT custom_check()\")", ""),
+                &format!("histories/{:?}/ms{}", method_of(method), ms).replace("(\"SELECT custom_check()\")", "").replace("(\" \")", "-blank"),
                 "every history of get / return / take / retain / resize / prepare_cached / prepare_typed_cached (keys differing only in types) / cache clear+remove / registry clear+remove / server closes a connection / server fails the next query",
                 0,
                 0,
